@@ -44,8 +44,16 @@ def sysroot():
 
 
 def tree_hash():
-    out = subprocess.check_output(
-        ["git", "-C", REPO, "ls-files", "-co", "--exclude-standard"], text=True)
+    try:
+        out = subprocess.check_output(
+            ["git", "-C", REPO, "ls-files", "-co", "--exclude-standard"], text=True, stderr=subprocess.DEVNULL)
+    except (subprocess.CalledProcessError, OSError):
+        # /repo without git metadata: walk the tree (build output excluded)
+        rels = []
+        for root, dirs, files in os.walk(REPO):
+            dirs[:] = [d for d in dirs if d not in ("target", ".git")]
+            rels += [os.path.relpath(os.path.join(root, f), REPO) for f in files]
+        out = "\n".join(rels)
     h = hashlib.sha256()
     n = 0
     for rel in sorted(out.splitlines()):
